@@ -55,6 +55,7 @@ func concurrent(a Artefact, k, bound int) *sched.Scenario {
 	p := &prepared{}
 	return &sched.Scenario{
 		Name:      fmt.Sprintf("concurrent%d-%s", k, a.Name),
+		RepeatKey: "run-depends-on-earlier-runs-of-the-same-artefact|artefact=" + a.Name,
 		Bound:     bound,
 		MaxPoints: 20000,
 		Visible:   func(ev *scriggo.VerifEvent) bool { return visibleOps[sched.AbsOp(ev)] },
@@ -102,6 +103,7 @@ func history(a Artefact) *sched.Scenario {
 	p := &prepared{}
 	return &sched.Scenario{
 		Name:      "history-" + a.Name,
+		RepeatKey: "run-depends-on-earlier-runs-of-the-same-artefact|artefact=" + a.Name,
 		Bound:     0,
 		MaxPoints: 2000000,
 		Visible:   func(ev *scriggo.VerifEvent) bool { return false },
